@@ -60,6 +60,10 @@ pub enum Kind {
     StSei,
     Swap,
     Oracle,
+    AirdropReg,
+    AirdropC,
+    AirToken,
+    AirPair,
 }
 
 #[derive(Clone, Debug)]
@@ -87,6 +91,9 @@ pub struct Chain {
     pub price: Decimal,
     pub swap_mode: String,
     pub oracle_mode: String,
+    pub air_hub: u128,
+    pub air_pair: u128,
+    pub air_amt: u128,
     pub fx: Vec<Value>,
     pub log: Vec<String>,
     pub keep_log: bool,
@@ -157,6 +164,9 @@ impl Chain {
             price: Decimal::one(),
             swap_mode: "ok".into(),
             oracle_mode: "ok".into(),
+            air_hub: 0,
+            air_pair: 0,
+            air_amt: 0,
             fx: vec![],
             log: vec![],
             keep_log: false,
@@ -272,6 +282,15 @@ impl Chain {
                         "zero" => Ok(to_json_binary(&Decimal::zero()).unwrap()),
                         _ => Err("oracle down".into()),
                     },
+                    Kind::AirToken => match serde_json::from_slice::<Value>(msg.as_slice()) {
+                        Ok(v) if v.get("balance").is_some() => {
+                            let a = v["balance"]["address"].as_str().unwrap_or("");
+                            let b = if a == "hub" { self.air_hub } else if a == "airpair" { self.air_pair } else { 0 };
+                            Ok(to_json_binary(&cw20::BalanceResponse { balance: Uint128::new(b) }).unwrap())
+                        }
+                        _ => Err("airtoken: unsupported query".into()),
+                    },
+                    Kind::AirdropReg | Kind::AirdropC | Kind::AirPair => Err("no query".into()),
                     Kind::Swap => {
                         if self.swap_mode != "ok" {
                             Err("swap down".into())
@@ -316,7 +335,7 @@ impl Chain {
                 Kind::Registry => basset_sei_validators_registry::contract::instantiate(deps, env, info, from_json(&msg).map_err(pe)?).map(|_| ()).map_err(|e| e.to_string()),
                 Kind::BSei => basset_sei_token_bsei::contract::instantiate(deps, env, info, from_json(&msg).map_err(pe)?).map(|_| ()).map_err(|e| e.to_string()),
                 Kind::StSei => basset_sei_token_stsei::contract::instantiate(deps, env, info, from_json(&msg).map_err(pe)?).map(|_| ()).map_err(|e| e.to_string()),
-                Kind::Swap | Kind::Oracle => Ok(()),
+                _ => Ok(()),
             }
         }))
         .unwrap_or_else(|p| Err(format!("PANIC: {}", panic_text(p))));
@@ -390,6 +409,48 @@ impl Chain {
                     return Ok(());
                 }
                 Kind::Oracle => return Err("no such contract (oracle has no execute)".into()),
+                Kind::AirdropReg | Kind::AirdropC | Kind::AirToken | Kind::AirPair => {
+                    let v: Value = serde_json::from_slice(msg.as_slice()).map_err(|e| e.to_string())?;
+                    let k = msg_kind(&msg);
+                    match (kind, k.as_str()) {
+                        (Kind::AirdropReg, "fabricate_claim") => {
+                            let m = basset::hub::ExecuteMsg::ClaimAirdrop {
+                                airdrop_token_contract: "airtoken".into(), airdrop_contract: "airdropc".into(), airdrop_swap_contract: "airpair".into(),
+                                claim_msg: Binary::from(b"{\"claim\":{}}".to_vec()), swap_msg: Binary::from(b"{\"swap\":{}}".to_vec()) };
+                            return self.dispatch(contract, CosmosMsg::Wasm(WasmMsg::Execute { contract_addr: "hub".into(), msg: to_json_binary(&m).unwrap(), funds: vec![] }), depth + 1);
+                        }
+                        (Kind::AirdropC, "claim") => {
+                            if sender == "hub" {
+                                self.air_hub += self.air_amt;
+                            }
+                            return Ok(());
+                        }
+                        (Kind::AirToken, "send") => {
+                            let amount: u128 = v["send"]["amount"].as_str().and_then(|x| x.parse().ok()).unwrap_or(0);
+                            let to = v["send"]["contract"].as_str().unwrap_or("").to_string();
+                            if sender != "hub" || amount == 0 || self.air_hub < amount {
+                                return Err("airtoken: insufficient balance".into());
+                            }
+                            if to != "airpair" {
+                                return Err("airtoken: recipient is not a contract".into());
+                            }
+                            self.air_hub -= amount;
+                            self.air_pair += amount;
+                            let rm = cw20::Cw20ReceiveMsg { sender: sender.to_string(), amount: Uint128::new(amount), msg: Binary::from(b"{\"swap\":{}}".to_vec()) };
+                            let wm = json!({"receive": rm});
+                            return self.dispatch(contract, CosmosMsg::Wasm(WasmMsg::Execute { contract_addr: to, msg: Binary::from(serde_json::to_vec(&wm).unwrap()), funds: vec![] }), depth + 1);
+                        }
+                        (Kind::AirPair, "receive") => {
+                            if sender != "airtoken" {
+                                return Err("airpair: unauthorized".into());
+                            }
+                            let amount: u128 = v["receive"]["amount"].as_str().and_then(|x| x.parse().ok()).unwrap_or(0);
+                            self.mint_coins("reward", "kusd", amount);
+                            return Ok(());
+                        }
+                        _ => return Err("airdrop stub: unknown message".into()),
+                    }
+                }
             }
         };
         self.stores.insert(contract.into(), st);
@@ -593,6 +654,10 @@ pub fn setup(cfg: &Cfg) -> Chain {
         update_reward_index_addr: "updater".into() }).unwrap()).unwrap();
     c.instantiate(Kind::Swap, "swap", "owner", Binary::default()).unwrap();
     c.instantiate(Kind::Oracle, "oracle", "owner", Binary::default()).unwrap();
+    c.instantiate(Kind::AirdropReg, "airdrop", "owner", Binary::default()).unwrap();
+    c.instantiate(Kind::AirdropC, "airdropc", "owner", Binary::default()).unwrap();
+    c.instantiate(Kind::AirToken, "airtoken", "owner", Binary::default()).unwrap();
+    c.instantiate(Kind::AirPair, "airpair", "owner", Binary::default()).unwrap();
     c.instantiate(Kind::Reward, "reward", "owner", to_json_binary(&basset::reward::InstantiateMsg {
         hub_contract: "hub".into(), reward_denom: "kusd".into(), swap_contract: "swap".into(), swap_denoms: vec![] }).unwrap()).unwrap();
     c.instantiate(Kind::Dispatcher, "dispatcher", "owner", to_json_binary(&basset_sei_rewards_dispatcher::msg::InstantiateMsg {
@@ -832,6 +897,7 @@ pub fn project(c: &Chain, cfg: &Cfg) -> Value {
                  "rate": limbs(dcfg.krp_keeper_rate), "swap": human(&api, &dcfg.swap_contract), "swapDenoms": dcfg.swap_denoms,
                  "oracle": human(&api, &dcfg.oracle_contract)},
         "reg": {"owner": human(&api, &gcfg.owner), "nominee": gnom, "hub": human(&api, &gcfg.hub_contract), "vals": vals},
+        "air": {"hub": n(c.air_hub), "pair": n(c.air_pair), "amt": n(c.air_amt)},
     })
 }
 
@@ -1008,6 +1074,10 @@ pub fn apply(c: &mut Chain, tx: &Value) -> Outcome {
         }
         "deliver" => {
             c.mint_coins("reward", tx["d"].as_str().unwrap(), tx["a"].as_u64().unwrap() as u128);
+            env_ok(true)
+        }
+        "set_airdrop" => {
+            c.air_amt = tx["a"].as_u64().unwrap() as u128;
             env_ok(true)
         }
         "fund" => {
